@@ -1,4 +1,59 @@
-import LZ4V.Spec.Frame
-/-! # C04 — property theorems (in progress) -/
+import LZ4V.Proofs.SparseProof
+import LZ4V.Proofs.WRProof
+import LZ4V.Properties.C20
+/-!
+# C04 — the CLI round-trips every file under every option set, deterministically
+
+Three pieces of the CLI are logic rather than I/O and are proved here on models tied to the real code by correspondence:
+
+* the **sparse writer** (`LZ4IO_fwriteSparse` / `LZ4IO_fwriteSparseEnd`) leaves exactly the bytes a plain writer leaves,
+  for every sequence of decoded buffers (each ≤ 1 GB: `storedSkips` is an `unsigned`, no wrap-around);
+* the **write register** makes the archive independent of the order in which workers finish (`-T`, `LZ4_NBWORKERS`, runs);
+* the **job splitter** (4 MB jobs / legacy 8 MB blocks) covers the input exactly once, in order.
+
+Everything else (option parsing, file handling, the compressors behind each job) is decided by the option cross-product
+correspondence of `vlib/cli.py` against the specification parser.
+-/
 namespace LZ4V.C04
+open LZ4V.Model
+
+/-- **with or without --sparse**: for every sequence of decoded buffers the sparse session leaves exactly the file the
+    plain session leaves: the concatenation of the buffers, with no pending hole -/
+theorem sparse_equals_plain (bufs : List (List UInt8)) (h : ∀ b ∈ bufs, b.length ≤ Sparse.GB) :
+    (Sparse.sparseSession bufs).content = bufs.flatten ∧ (Sparse.sparseSession bufs).hole = 0 ∧
+    (Sparse.plainSession bufs).content = bufs.flatten ∧ (Sparse.sparseSession bufs).content = (Sparse.plainSession bufs).content := by
+  have hinv : Sparse.Inv (0, ({} : Sparse.SFile)) := ⟨fun h => absurd h (by decide), by decide⟩
+  obtain ⟨i1, l1⟩ := Sparse.foldl_spec bufs (0, {}) hinv h
+  obtain ⟨e1, e2⟩ := Sparse.sparseEnd_spec _ i1
+  have hp := Sparse.plain_spec bufs {} rfl
+  have hs : (Sparse.sparseSession bufs).content = bufs.flatten := by
+    unfold Sparse.sparseSession
+    rw [e1, l1]
+    simp [Sparse.L, Sparse.zeros]
+  have hpl : (Sparse.plainSession bufs).content = bufs.flatten := by
+    unfold Sparse.plainSession
+    rw [hp.1]
+    rfl
+  exact ⟨hs, e2, hpl, by rw [hs, hpl]⟩
+
+/-- no `unsigned` overflow of `storedSkips`: between calls it stays ≤ 2 GB -/
+theorem storedSkips_bounded (bufs : List (List UInt8)) (h : ∀ b ∈ bufs, b.length ≤ Sparse.GB) :
+    (bufs.foldl Sparse.fwriteSparse (0, {})).1 ≤ 2 * Sparse.GB :=
+  (Sparse.foldl_spec bufs (0, {}) ⟨fun h => absurd h (by decide), by decide⟩ h).1.2
+
+/-- **identical for every worker count and on every run**: whatever two orders the compressed blocks of ranks `0..n-1`
+    reach the write register in, the bytes written are the same -/
+theorem archive_independent_of_completion_order (pay : Nat → List UInt8) (n : Nat) (a1 a2 : List Nat)
+    (h1 : ∀ r, r ∈ a1 ↔ r < n) (n1 : a1.Nodup) (h2 : ∀ r, r ∈ a2 ↔ r < n) (n2 : a2.Nodup) :
+    (WR.run (a1.map (fun r => (r, pay r)))).out = (WR.run (a2.map (fun r => (r, pay r)))).out := by
+  rw [(WR.in_order_once pay n a1 h1 n1).1, (WR.in_order_once pay n a2 h2 n2).1]
+
+/-- **the job splitter covers the input**: the chunks handed to the workers (any positive job size) concatenate to the input -/
+theorem jobs_cover_input (jobSize : Nat) (input : List UInt8) :
+    (FrameC.chunks jobSize (input.length + 1) input).flatten = input :=
+  LZ4V.C20.chunks_flatten jobSize _ input (by omega)
+
+-- the premises are satisfiable, the sessions do something
+example : (Sparse.sparseSession [[0,0,0,0,0,0,0,0,0,0,0,0,0,0,0,0,65,66,67], [0,0,0], [], [0,0,0,0,0,0,0,0,1]]).content.length = 31 := by decide
+
 end LZ4V.C04
